@@ -223,7 +223,7 @@ def seq_emitter(F, fn):
 
     def strip_views(t):
         while True:
-            if t[0] == "call" and len(t[2]) == 1 and t[1].split("::")[-1] in ("as_slice", "as_ref", "deref", "iter", "into_iter", "copied", "cloned", "by_ref", "enumerate", "rev"):
+            if t[0] == "call" and len(t[2]) == 1 and t[1].split("::")[-1] in ("as_slice", "as_ref", "deref", "iter", "into_iter", "copied", "cloned", "by_ref", "enumerate"):
                 if t[1].split("::")[-1] == "enumerate":
                     flags["enumerate"] = True
                 t = t[2][0]
